@@ -13,7 +13,8 @@ R07.2 finalize consumes the carried state: in each of the 16 finalize bodies eve
       dominated by loads of ctx->in_length, ctx->aad_length (the GHASH length block), ctx->aad_hash and
       ctx->orig_IV (E(K, Y0)).
 R07.3 init leaves no stale carry: on every path of each of the 8 init bodies ctx->aad_hash, aad_length, in_length,
-      orig_IV, current_counter and partial_block_length are stored before returning.  partial_block_enc_key is
+      orig_IV, current_counter and partial_block_length are stored - every byte of them, within one block - before
+      returning (a 32-bit store into a 64-bit length leaves its upper half to whatever the memory held).  partial_block_enc_key is
       exempt: the VAES family never initialises it and every family writes it before partial_block_length becomes
       non-zero (confirmed by reading; its definedness is C20's).
 R07.4 one family per CPU class: under the same CPU facts the dispatchers of precomp, enc, dec, enc_update and
@@ -223,6 +224,7 @@ def worker(lib, objname, extra):
             out["broken"].append("%s::%s %s" % (objname, name, b))
         ctx_loads = collections.defaultdict(set)
         ctx_stores = collections.defaultdict(set)
+        store_cov = {}
         adds = []
         data = []
         tagst = []
@@ -244,7 +246,10 @@ def worker(lib, objname, extra):
                     for fn_, (off, fsz) in fields.items():
                         if v[2] < off + fsz and off < v[2] + sz:
                             if i.writes_mem_operand():
-                                ctx_stores[fn_].add(b)
+                                cov_ = store_cov.setdefault((fn_, b), set())
+                                cov_ |= set(range(max(v[2], off), min(v[2] + sz, off + fsz)))
+                                if len(cov_) >= fsz:
+                                    ctx_stores[fn_].add(b)      # the block writes every byte of the field
                             if i.reads_mem_operand():
                                 ctx_loads[fn_].add(b)
                             if fn_ == "in_length" and i.op.startswith("ADD64m") and i.writes_mem_operand():
